@@ -63,10 +63,6 @@ inductive Clause where
   | icmp (v6 : Bool) (neg : Bool) (type : Nat) (code : Option Nat)
   | ctState (neg : Bool) (states : String)
   | limit (rate : String) (burst : Nat)
-  /-- nftables only: `InInterfaceVMAP` / `OutInterfaceVMAP`.  Not a match but a verdict-map
-      statement: if the interface name is a key of the map its verdict is taken, otherwise
-      evaluation continues with the *next rule* (see `runRules`). -/
-  | vmap (d : Dir) (mapName : String)
   deriving DecidableEq, Repr, Inhabited
 
 inductive Action where
@@ -80,6 +76,10 @@ inductive Action where
   | log (pfx : String)
   | nflog (group : Nat) (pfx : String)
   | notrack
+  /-- nftables only: `InInterfaceVMAP` / `OutInterfaceVMAP` (Go: a match-builder call on a rule
+      whose `Action` is nil).  Not a match but a verdict-map statement: if the interface name is a
+      key of the map its verdict is taken, otherwise evaluation continues with the next rule. -/
+  | vmap (d : Dir) (mapName : String)
   deriving DecidableEq, Repr, Inhabited
 
 structure Rule where
@@ -98,11 +98,14 @@ structure Chain where
 def hexDigit (n : Nat) : Char :=
   if n < 10 then Char.ofNat (48 + n) else Char.ofNat (87 + n)
 
-/-- Go `%#x` of an unsigned value: `0` prints as `0`, otherwise `0x…` lowercase. -/
-def goHex (n : Nat) : String :=
-  if n = 0 then "0" else "0x" ++ String.ofList ((Nat.toDigits 16 n))
+/-- Go `%#x` of an unsigned value: `0x…` lowercase (`0` prints as `0x0`). -/
+def goHex (n : Nat) : String := "0x" ++ String.ofList ((Nat.toDigits 16 n))
 
 def markHex (m : Mark) : String := goHex m.toNat
+
+/-- The value of a mark *match*: `MarkClear`/`MarkNotClear` print a literal `0`
+(`.mark _ 0 m` always denotes those two builders; Felix never calls `MarkMatchesWithMask(0, m)`). -/
+def markValHex (v : Mark) : String := if v = 0 then "0" else markHex v
 
 /-- Escape used on BOTH sides of the correspondence so that arbitrary bytes survive the
 line protocol: printable ASCII except `%` is kept, anything else becomes `%XX`. -/
@@ -128,7 +131,7 @@ def bang (neg : Bool) : String := if neg then "! " else ""
 
 /-- `iptables.matchCriteria` fragment for one clause (`none` = the Go builder panics). -/
 def Clause.toIpt : Clause → Option String
-  | .mark neg v m => some s!"-m mark {bang neg}--mark {markHex v}/{markHex m}"
+  | .mark neg v m => some s!"-m mark {bang neg}--mark {markValHex v}/{markHex m}"
   | .inIface p => some s!"--in-interface {escBytes p}"
   | .outIface p => some s!"--out-interface {escBytes p}"
   | .proto neg p => some s!"{bang neg}-p {p.text}"
@@ -143,7 +146,6 @@ def Clause.toIpt : Clause → Option String
       if v6 then some s!"-m icmp6 {bang neg}--icmpv6-type {tc}" else some s!"-m icmp {bang neg}--icmp-type {tc}"
   | .ctState neg s => some s!"-m conntrack {bang neg}--ctstate {s}"
   | .limit r b => if b = 0 then some s!"-m limit --limit {r}" else some s!"-m limit --limit {r} --limit-burst {b}"
-  | .vmap _ _ => Option.none
 
 def optAll : List (Option String) → Option (List String)
   | [] => some []
@@ -165,6 +167,7 @@ def iptActionText : Action → String
   | .log p => "--jump LOG --log-prefix \"" ++ p ++ ": \" --log-level 5"
   | .nflog g p => s!"--jump NFLOG --nflog-group {g} --nflog-prefix {p} --nflog-size 80"
   | .notrack => "--jump NOTRACK"
+  | .vmap _ _ => "panic"
 
 /-- `iptables.escapeComment`: anything outside word characters, space and `@%+=:,.` slash, dash
 becomes `_` (ASCII input). -/
@@ -177,6 +180,7 @@ def escapeComment (s : String) : String := String.ofList (s.toList.map escapeCom
 /-- `iptablesRenderer.RenderAppend(rule, chain, "", features)` (features.NFLogSize = true).
 Comments longer than 256 bytes are not modelled (none of the modelled renderers emit one). -/
 def Rule.toIptables (chain : String) (r : Rule) : Option String :=
+  if (match r.action with | .vmap _ _ => true | _ => false) then Option.none else
   match optAll (r.clauses.map Clause.toIpt) with
   | Option.none => Option.none
   | some ms =>
@@ -205,7 +209,7 @@ def legalizeSetName (s : String) : String := s.replace ":" "-"
 /-- One nft clause.  `ipv` is the `<IPV>` replacement ("ip" / "ip6").  Returns the new
 proto state and the text, `none` where the Go builder panics / calls `Fatal`. -/
 def Clause.toNft (ipv : String) (st : NftProtoState) : Clause → Option (NftProtoState × String)
-  | .mark neg v m => some (st, s!"meta mark & {markHex m} {if neg then "!=" else "=="} {markHex v}")
+  | .mark neg v m => some (st, s!"meta mark & {markHex m} {if neg then "!=" else "=="} {markValHex v}")
   | .inIface p => some (st, s!"iifname {escBytes p}")
   | .outIface p => some (st, s!"oifname {escBytes p}")
   | .proto false p =>
@@ -231,7 +235,6 @@ def Clause.toNft (ipv : String) (st : NftProtoState) : Clause → Option (NftPro
       | some c => some (st, s!"{fam} type {cmpNft neg}{t} code {cmpNft neg}{c}")
   | .ctState neg s => some (st, s!"ct state {cmpNft neg}{s.toLower}")
   | .limit r b => if b > 0 then some (st, s!"limit rate {r} burst {b} packets") else some (st, s!"limit rate {r}")
-  | .vmap d n => some (st, s!"{if d = .src then "iifname" else "oifname"} vmap @-{legalizeSetName n}")
 
 def clausesToNft (ipv : String) : NftProtoState → List Clause → Option (List String)
   | _, [] => some []
@@ -255,6 +258,7 @@ def nftActionText : Action → String
   | .log p => "log prefix \"" ++ p ++ ": \" level info"
   | .nflog g p => "log prefix \"" ++ p ++ "\" snaplen 80 group " ++ toString g
   | .notrack => "notrack"
+  | .vmap d n => s!"{if d = .src then "iifname" else "oifname"} vmap @-{legalizeSetName n}"
 
 /-- `nftRenderer.Render(chain, "", rule, features).Rule` for IP version `v6`. -/
 def Rule.toNft (v6 : Bool) (r : Rule) : Option String :=
@@ -262,9 +266,10 @@ def Rule.toNft (v6 : Bool) (r : Rule) : Option String :=
   | Option.none => Option.none
   | some ms =>
     let m := " ".intercalate ms
+    let isVmap := match r.action with | .vmap _ _ => true | _ => false
     let frags := (if m = "" then [] else [m])
       ++ (if r.action = .none then [] else
-            ["counter"] ++ (let a := nftActionText r.action; if a = "" then [] else [a]))
+            (if isVmap then [] else ["counter"]) ++ (let a := nftActionText r.action; if a = "" then [] else [a]))
     let inner := " ".intercalate frags
     some (if inner = "" then "continue" else inner)
 
@@ -353,7 +358,6 @@ def Clause.matches (env : Env) (pkt : Packet) (mark : Mark) : Clause → Bool
       | .nft, some c => isIcmp && xorb neg (pkt.icmpType == t) && xorb neg (pkt.icmpCode == c)
   | .ctState neg s => xorb neg ((s.splitOn ",").contains pkt.ctState)
   | .limit _ _ => env.limitPass
-  | .vmap _ _ => true
 
 def Rule.matches (env : Env) (pkt : Packet) (mark : Mark) (r : Rule) : Bool :=
   r.clauses.all (Clause.matches env pkt mark)
@@ -386,11 +390,11 @@ def applyMark (dp : Dataplane) (mark : Mark) : Action → Mark
     | .nft => (mark &&& ~~~ m) ^^^ v
   | _ => mark
 
-/-- Find the verdict-map statement of a rule, if any. -/
-def Rule.vmapOf (r : Rule) : Option (Dir × String) :=
-  r.clauses.findSome? fun c => match c with
-    | .vmap d n => some (d, n)
-    | _ => Option.none
+/-- A verdict-map statement resolves to the verdict stored for the packet's interface (or to
+"no action" when the interface is not a key); every other action is itself. -/
+def resolveAction (env : Env) (pkt : Packet) : Action → Action
+  | .vmap d n => (env.vmap n (if d = .src then pkt.inIface else pkt.outIface)).getD .none
+  | a => a
 
 /-- Evaluate a rule list.  `call t mark` evaluates chain `t` (one level less fuel). -/
 def runRules (env : Env) (call : String → Mark → Result) (pkt : Packet) :
@@ -398,10 +402,7 @@ def runRules (env : Env) (call : String → Mark → Result) (pkt : Packet) :
   | [], mark => .returned mark
   | r :: rs, mark =>
     if r.matches env pkt mark then
-      let act : Action := match r.vmapOf with
-        | some (d, n) => (env.vmap n (if d = .src then pkt.inIface else pkt.outIface)).getD r.action
-        | Option.none => r.action
-      match act with
+      match resolveAction env pkt r.action with
       | .accept => .verdict .accept mark
       | .drop => .verdict .drop mark
       | .reject => .verdict .reject mark
